@@ -106,6 +106,28 @@ func checkC06Root(c *GCase, st *Stats, b *Built, probe *Probe, fs *parsley.FileS
 	if berr != nil {
 		return berr
 	}
+	// the same parse once more on the same context (results come from its cache now): the verdict
+	// and the reported error must be the same
+	if err != nil && berr == nil {
+		var err2 error
+		keepT, keepN := probe.termFails, probe.namedFails
+		func() {
+			defer func() {
+				if r := recover(); r != nil {
+					if be, ok := r.(boundExceeded); ok {
+						err2 = fmt.Errorf("%s", be.msg)
+						return
+					}
+					panic(r) // the call budget (the case is discarded) or a genuine panic
+				}
+			}()
+			_, err2 = parsley.Parse(ctx, root)
+		}()
+		probe.termFails, probe.namedFails = keepT, keepN
+		if err2 == nil || err2.Error() != err.Error() {
+			return fmt.Errorf("a second Parse on the same context reports %q, the first one reported %q", fmt.Sprint(err2), err.Error())
+		}
+	}
 	if err == nil {
 		return fmt.Errorf("the input is not derived by the grammar but Parse succeeded: %s", RenderResult(node, int(file.Pos(0))))
 	}
